@@ -19,7 +19,7 @@ func init() {
 
 func runC07(c *Ctx) {
 	// ---- R1 interpreter: validate before run
-	c.rule("C07-R1", "MPT/GRD: in Interpreter.ExecuteRoute the route body (executeStatements) is unreachable from entry once the no-contract edges (route.InputType==nil, InputType is not a NamedType, type definition unknown) and the validator's err==nil edge are deleted: whenever a contract exists, every path to the body passed ValidateObjectAgainstTypeDef successfully (or returned a 4xx before)")
+	c.rule("C07-R1", "MPT/GRD: in Interpreter.ExecuteRoute the route body (executeStatements) is unreachable from entry once the no-contract edges (route.InputType==nil, type definition unknown) and the validators' err==nil edges are deleted: whenever a contract exists - of any shape: Item, Item?, Item | Other, [Item] - every path to the body passed ValidateObjectAgainstTypeDef or CheckType(body, route.InputType) successfully (or returned a 4xx before)")
 	if er := c.mustFn("C07-R1", interpPkg, "Interpreter.ExecuteRoute"); er != nil {
 		var wrappers []*ssa.Function
 		var validates, noContractOK []ssa.Value
@@ -28,6 +28,10 @@ func runC07(c *Ctx) {
 			switch x := ins.(type) {
 			case *ssa.Call:
 				if callName(x) == interpPath+".TypeChecker.ValidateObjectAgainstTypeDef" {
+					validates = append(validates, x)
+				}
+				// a declared type that is not a bare name is enforced by the general checker
+				if callName(x) == interpPath+".TypeChecker.CheckType" && len(x.Call.Args) >= 3 && derivesFrom(x.Call.Args[2], func(v ssa.Value) bool { return loadedFromField(v, "Route", "InputType") }) {
 					validates = append(validates, x)
 				}
 				// a helper that returns a nil error only after validating (or when no contract applies) counts as the validator
@@ -43,10 +47,6 @@ func runC07(c *Ctx) {
 			case *ssa.UnOp:
 				if loadedFromField(x, "Route", "InputType") {
 					inputNil = append(inputNil, x)
-				}
-			case *ssa.TypeAssert:
-				if x.CommaOk && typeIs(x.AssertedType, astPath, "NamedType") && derivesFrom(x.X, func(v ssa.Value) bool { return loadedFromField(v, "Route", "InputType") }) {
-					noContractOK = append(noContractOK, extractOf(x, 1)...)
 				}
 			case *ssa.Lookup:
 				if x.CommaOk && loadedFromField(x.X, "Interpreter", "typeDefs") {
